@@ -803,6 +803,12 @@ class Interp:
         return res
 
     def literal_elems(self, src: Any) -> list[Any] | None:
+        if isinstance(src, DictV) and src.loop is None:
+            if src.key is None:
+                return []
+            if getattr(src, "_items", False):
+                return [TupleV([src.key, src.val])]
+            return [src.key]
         if isinstance(src, ListV) and src.items is not None and src.loop is None:
             return list(src.items)
         if isinstance(src, TupleV) and getattr(src, "_zip", False) and src.items and all(
@@ -1623,6 +1629,11 @@ class Interp:
                     return cv
                 if o in ("<=", ">=") and ((o == "<=" and c >= (1 << n) - 1) or (o == ">=" and c <= 0)):
                     return ConstV(True)
+                lim = c + 1 if o == "<=" else c if o == "<" else None
+                if lim is not None and lim > 0 and lim & (lim - 1) == 0 and lim.bit_length() - 1 < n:
+                    k = lim.bit_length() - 1
+                    hi_bits = tuple(bits[k:])
+                    return CondV(Fact("bits", "==", bits=hi_bits, const=0), Fact("bits", "!=", bits=hi_bits, const=0))
         for x, c, o in ((a, cb, opname), (b, ca, _FLIP[opname])):
             if isinstance(x, IntV) and x.kind == "mod" and c == 0 and o in ("==", "!=", ">"):
                 zero = Fact("len", "mod==0", lin=x.lin, text=repr(x.lo))
@@ -1669,6 +1680,8 @@ class Interp:
             li = as_lin(i)
             if li is None:
                 raise AnalysisError(f"{where}: pdu index {i!r}")
+            if li.is_const:
+                st.guards.append(("index", li.const, where))
             return pdu_byte(li)
         if isinstance(base, BytesV) and len(base.segs) == 1 and base.segs[0].kind == "raw":
             li = as_lin(i)
